@@ -68,7 +68,7 @@ pub fn elementwise(r: &dyn Runner, tier: Tier, st: &St, out: &mut Vec<Edge>) {
     out.push(Edge::Clear(Api::Erased));
     out.push(Edge::Clear(Api::Typed));
     for api in [Api::Erased, Api::Typed] {
-        for k in [GetKind::Get, GetKind::At, GetKind::GetMut, GetKind::AtMut, GetKind::GetUncheckedInRange] {
+        for k in [GetKind::Get, GetKind::At, GetKind::GetMut, GetKind::AtMut, GetKind::GetUncheckedInRange, GetKind::Index, GetKind::IndexMut] {
             for i in idx(len) { out.push(Edge::Get(api, k, i)); }
         }
         for k in [IterKind::Iter, IterKind::IterMut, IterKind::IntoIterRef, IterKind::IntoIterMut] { out.push(Edge::IterAll(api, k)); }
@@ -205,6 +205,21 @@ pub fn iter_protocol(_r: &dyn Runner, _tier: Tier, st: &St, out: &mut Vec<Edge>)
     out.push(Edge::Pop(Api::Typed, Sink::Downcast));
 }
 
+/// replacement iterators whose `len()` lies: by a constant -2..=+2, or UNSTABLY (another answer on the second call than on the
+/// first, `exec_range::UNSTABLE`). Only where the storage has guard zones. `full`: all consumption patterns for the constant liars.
+pub fn liars(r: &dyn Runner, st: &St, full: bool, v: &mut Vec<Edge>) {
+    if matches!(r.backend(), crate::caps::BK::Stack | crate::caps::BK::StackN) { return; }
+    let len = st.len as usize;
+    let unstable = 10..10 + crate::exec_range::UNSTABLE.len() as i8;
+    for a in 0..=len { for b in a..=len { for rn in 0..=3u8 { for lie in [-2i8, -1, 1, 2].into_iter().chain(unstable.clone()) { for api in [Api::Erased, Api::Typed] {
+        let pats: &[Pat] = if full && lie < 10 { &[Pat::none(), Pat { n: 1, bits: 0 }, Pat { n: 1, bits: 1 }, Pat { n: 2, bits: 0b10 }, Pat { n: 2, bits: 0 }] } else { &[Pat::none(), Pat { n: 1, bits: 0 }] };
+        for pat in pats {
+            v.push(Edge::Splice { api, a: a as u8, b: b as u8, form: Form::Excl, pat: *pat, sink: Sink::Drop, rn, rsrc: RSrc::W, lie });
+        }
+        if api == Api::Erased && r.elem_size() != 0 { v.push(Edge::Splice { api, a: a as u8, b: b as u8, form: Form::Excl, pat: Pat::none(), sink: Sink::Drop, rn, rsrc: RSrc::R, lie }); }
+    } } } } }
+}
+
 /// clone families (C08)
 pub fn clones(r: &dyn Runner, _tier: Tier, _st: &St, out: &mut Vec<Edge>) {
     use crate::exec_clone::{N_TARGETS, N_THEN};
@@ -254,7 +269,7 @@ pub fn handles(_r: &dyn Runner, _tier: Tier, st: &St, out: &mut Vec<Edge>) {
     use crate::exec_handles::*;
     let len = st.len as usize;
     for api in [Api::Erased, Api::Typed] {
-        for k in [GetKind::Get, GetKind::At, GetKind::GetMut, GetKind::AtMut, GetKind::GetUncheckedInRange] { for i in idx(len) { out.push(Edge::Get(api, k, i)); } }
+        for k in [GetKind::Get, GetKind::At, GetKind::GetMut, GetKind::AtMut, GetKind::GetUncheckedInRange, GetKind::Index, GetKind::IndexMut] { for i in idx(len) { out.push(Edge::Get(api, k, i)); } }
         for k in [IterKind::Iter, IterKind::IterMut, IterKind::IntoIterRef, IterKind::IntoIterMut] { out.push(Edge::IterAll(api, k)); }
     }
     for i in 0..len as u8 {
@@ -401,16 +416,7 @@ pub fn edges_for(prop: Prop, tier: Tier, r: &dyn Runner, st: &St) -> Vec<Edge> {
                 let len = st.len as usize;
                 v.retain(|e| match e { Edge::Splice { a, b, rn, .. } if ix(*a) <= ix(*b) && ix(*b) <= len => len - (ix(*b) - ix(*a)) + *rn as usize <= cap, _ => true });
             }
-            // replacement iterators whose len() lies by -2..=+2 (only where storage has guard zones)
-            if !matches!(r.backend(), crate::caps::BK::Stack | crate::caps::BK::StackN) {
-                let len = st.len as usize;
-                for a in 0..=len { for b in a..=len { for rn in 0..=3u8 { for lie in [-2i8, -1, 1, 2] { for api in [Api::Erased, Api::Typed] {
-                    for pat in [Pat::none(), Pat { n: 1, bits: 0 }, Pat { n: 1, bits: 1 }, Pat { n: 2, bits: 0b10 }, Pat { n: 2, bits: 0 }] {
-                        v.push(Edge::Splice { api, a: a as u8, b: b as u8, form: Form::Excl, pat, sink: Sink::Drop, rn, rsrc: RSrc::W, lie });
-                    }
-                    if api == Api::Erased && r.elem_size() != 0 { v.push(Edge::Splice { api, a: a as u8, b: b as u8, form: Form::Excl, pat: Pat::none(), sink: Sink::Drop, rn, rsrc: RSrc::R, lie }); }
-                } } } } }
-            }
+            liars(r, st, true, &mut v);
         }
         Prop::C17 => { rawparts(r, tier, st, &mut v); movers(&mut v); if r.resizable() { v.push(Edge::Cap(Api::Erased, CapCall::Reserve, 2)); v.push(Edge::Cap(Api::Erased, CapCall::ShrinkToFit, 0)); } }
         // inline storage with over-aligned elements (the C12 known finding): only address arithmetic on the empty vector, no element is ever touched
@@ -424,7 +430,11 @@ pub fn edges_for(prop: Prop, tier: Tier, r: &dyn Runner, st: &St) -> Vec<Edge> {
         Prop::C10 => { capacity(r, tier, st, bounds(prop, tier).lmax, &mut v); elementwise(r, tier, st, &mut v); }
         Prop::C04 => { wrong_types(r, tier, st, &mut v); if r.tracked() { lazies(r, tier, st, &mut v); } v.retain(|e| !matches!(e, Edge::Lazy { uses, .. } if *uses > 1)); movers(&mut v); }
         Prop::C03 | Prop::C05 => {
-            if prop == Prop::C05 { capacity(r, tier, st, bounds(prop, tier).lmax, &mut v); v.retain(|e| !matches!(e, Edge::Cap(_, CapCall::PushRun, _))); } elementwise(r, tier, st, &mut v); ranges(r, tier, st, true, &mut v); adaptors(r, tier, st, true, &mut v); clones(r, tier, st, &mut v); lazies(r, tier, st, &mut v); histories(r, tier, st, &mut v); three(r, tier, st, &mut v); }
+            if prop == Prop::C05 { capacity(r, tier, st, bounds(prop, tier).lmax, &mut v); v.retain(|e| !matches!(e, Edge::Cap(_, CapCall::PushRun, _))); } elementwise(r, tier, st, &mut v); ranges(r, tier, st, true, &mut v); adaptors(r, tier, st, true, &mut v); clones(r, tier, st, &mut v); lazies(r, tier, st, &mut v); histories(r, tier, st, &mut v); three(r, tier, st, &mut v);
+            // a failed (wrong-type) downcast is a value sink too: the handle must still destroy / keep its value exactly once
+            // a safe but lying replacement iterator must not make the vector touch memory outside its storage either
+            if prop == Prop::C05 { liars(r, st, false, &mut v); }
+            if prop == Prop::C03 { for ty in 0..=crate::exec_handles::N_WRONG_TYPES { for kind in 0..13u8 { v.push(Edge::WrongDowncast(kind, ty)); } } } }
         _ => {}
     }
     v
